@@ -78,11 +78,14 @@ def make(seq, excl=False, shape=None, reach=False):
             last_partial = False
             history = []  # (proposal, creation time) in arrival order
             last_expire = None
+            k_expire = None
+            arrival = {}
             for k, ev in enumerate(seq):
                 n0 = len(req.msgs)
                 if ev in ("reg", "op"):
                     p = prop(ex, f"{ev[0]}{k}", 1, ev == "op", float(k), shape)
                     history.append(p)
+                    arrival[id(p)] = k
                     await a._send_updated_target_power(IDS, p, must_send=True)
                     await a._send_reports(IDS)
                 elif ev == "bounds":
@@ -100,6 +103,7 @@ def make(seq, excl=False, shape=None, reach=False):
                     a._set_power_group.drop_old_proposals(t)
                     a._set_op_power_group.drop_old_proposals(t)
                     last_expire = t
+                    k_expire = k
                     # the next bounds update / proposal recomputes; the real loop does nothing else on the timer
                     continue
                 for r in req.msgs[n0:]:
@@ -122,6 +126,8 @@ def make(seq, excl=False, shape=None, reach=False):
                     latest[(p.set_operating_point, p.source_id[0], p.priority)] = p
                 for is_op, grp in ((False, a._set_power_group), (True, a._set_op_power_group)):
                     mine = [p for key, p in latest.items() if key[0] == is_op]
+                    if any(arrival[id(p)] > k_expire for p in mine):
+                        continue   # a proposal that arrived after the expiry sweep is live (its nominal creation time k is only a label)
                     if mine and not any(ex.branch(E(last_expire) - E(p.creation_time) <= 60) for p in mine):
                         t = grp.get_target_power(IDS)
                         ex.check(t is None or bool(t.as_watts() == 0), "a group whose proposals have all expired still contributes a non-zero target")
